@@ -84,7 +84,7 @@ def qcow2_spec(draw, tier="quick", layer=0, size_clusters=None, cluster_bits=Non
     force = force or {}
     version = force.get("version") or draw(st.sampled_from([2, 3, 3, 3]))
     if cluster_bits is None:
-        pool = [9, 10, 12, 14, 16, 16] + ([17, 18, 21] if tier == "thorough" else [])
+        pool = [9, 10, 12, 14, 16, 16, 21] + ([17, 18, 20] if tier == "thorough" else [])  # both ends of the allowed range in every tier
         cb = draw(st.one_of(st.sampled_from(pool), st.integers(9, 16), st.integers(9, 21 if tier == "thorough" else 18)))
     else:
         cb = cluster_bits
